@@ -332,7 +332,19 @@ class RemoteDispatcher(Dispatcher):
                             f"\n\n{e}"
                         )
                         continue
-                self.loop.call_soon(self.process, DocumentNames[name], doc)
+                try:
+                    doc_name = DocumentNames[name]
+                except KeyError as e:
+                    if self._strict:
+                        raise Bluesky0MQDecodeError from e
+                    else:
+                        print(
+                            f"The name {name} is not a known document name. "
+                            "Dropping message on the floor and continuing. "
+                            f"\n\n{e}"
+                        )
+                        continue
+                self.loop.call_soon(self.process, doc_name, doc)
 
     def start(self):
         if self.closed:
